@@ -116,7 +116,7 @@ func VerifH_C29_Requests() {
 		tok = vfSession(s, c, true)
 	}
 	// node ids: existing node, unknown node in an existing namespace, unknown namespace, standard reference types
-	cands := []*ua.NodeID{node.ID(), ua.NewNumericNodeID(ns.ID(), 5), ua.NewNumericNodeID(7, 1000), ua.NewNumericNodeID(0, 33), ua.NewNumericNodeID(0, 0), ua.NewStringNodeID(ns.ID(), "x")}
+	cands := []*ua.NodeID{node.ID(), ua.NewNumericNodeID(ns.ID(), 5), ua.NewNumericNodeID(7, 1000), ua.NewNumericNodeID(uint16(len(s.namespaces)), 1000), ua.NewNumericNodeID(65535, 1), ua.NewNumericNodeID(0, 33), ua.NewNumericNodeID(0, 0), ua.NewStringNodeID(ns.ID(), "x")}
 	anyNode := func(tag string) *ua.NodeID { return cands[vfConcrete(vfInt(tag, 0, len(cands)-1))] }
 	intervals := []float64{100, 0, -1, math.NaN(), 1e300, math.Inf(1), 5e-324}
 	interval := intervals[vfConcrete(vfInt("interval", 0, len(intervals)-1))]
